@@ -85,12 +85,23 @@ def _all(ts):
 
 
 def execute(job):
-    cfgkey, doc, ops = job
+    cfgkey, doc, ops = job[:3]
+    deco = job[3] if len(job) > 3 else 0
     from markdown_it.token import Token
 
     md = A.md_for(cfgkey)
     env = {}
     toks = md.parse(doc, env)
+    if deco:
+        # a stream as a plugin leaves it: attributes, meta and info set through the public Token API on every
+        # token that renders a tag (the statement speaks of every stream the parser produces, plugins included)
+        for t in _all(toks):
+            if t.nesting >= 0 and (t.tag or t.type in ("fence", "code_block", "code_inline")):
+                t.attrSet("class", "hl" if deco == 1 else "a b")
+                if deco == 2:
+                    t.attrJoin("class", "c")
+                    t.attrSet("data-n", 7)
+                    t.meta = {"k": [1, {"z": None}]}
     base_val = val0(toks)
     base_html = C.ascii_safe(md.renderer.render(copy.deepcopy(toks), md.options, env))
     ev = []
@@ -134,7 +145,7 @@ def run(tier, rep):
         + [gen.cfg_key({"preset": "commonmark", "on": [], "off": ["fragments_join"], "opts": []}),
            gen.cfg_key({"preset": "js-default", "on": [], "off": ["balance_pairs", "text_join"], "opts": []})] \
         + gen.sample([gen.cfg_key(c) for c in cfgs], 30 if q else 300, C.SEED + 2)
-    jobs = [(ck[k % len(ck)], d, seqs[(k * 31 + 7) % len(seqs)]) for k, d in enumerate(docs)]
+    jobs = [(ck[k % len(ck)], d, seqs[(k * 31 + 7) % len(seqs)], (0, 0, 1, 0, 2)[k % 5]) for k, d in enumerate(docs)]
     res = C.pmap(execute, jobs, chunk=200)
     traces = [x[0] for x in res]
     verdicts, st = C.validate_traces("RoundTripTrace", traces, shard=3000, heap="8g")
@@ -143,19 +154,20 @@ def run(tier, rep):
         if v != "ok":
             rep.violation(f"{v}:{json.dumps(job[2][:pos - 1])}:{job[0]}:{json.dumps(job[1])}"[:700],
                           {"engine": "trace", "module": "RoundTripTrace", "clause": v, "event_index": pos - 2,
-                           "input": {"config": json.loads(job[0]), "doc": job[1], "ops": job[2]},
+                           "input": {"config": json.loads(job[0]), "doc": job[1], "ops": job[2], "deco": job[3]},
                            "event": {k: x for k, x in tr["ev"][pos - 2].items() if k not in ("val0", "html", "nodes")}})
     rep.sample({"doc": jobs[9][1], "ops": jobs[9][2]})
     rep.cov["evaluations"] = len(jobs)
     rep.cov["distinct_nontrivial"] = len({(j[0], j[1], json.dumps(j[2])) for j, x in zip(jobs, res) if x[1] >= 3})
     rep.cov["bounds"] = {"operation_sequences": len(seqs), "documents": len(docs), "configs": len(ck)}
+    rep.assumptions += ["two of five streams are decorated through the public Token API (class / data attributes, meta) before the operations run, as a plugin would"]
     rep.cov["rule"] = "case = (configuration, document, operation sequence); non-trivial = the stream has at least 3 tokens"
     rep.cov["exhaustive"] = False
 
 
 def replay(case, rep):
     i = case["input"]
-    t, _ = execute((gen.cfg_key(i["config"]), i["doc"], i["ops"]))
+    t, _ = execute((gen.cfg_key(i["config"]), i["doc"], i["ops"], i.get("deco", 0)))
     v, _ = C.validate_traces("RoundTripTrace", [t])
     if v[0][0] != "ok":
         rep.violation(case.get("key", "replay"), case)
